@@ -17,8 +17,12 @@ operation is executed, and the result is judged against the denotation (ref/ints
 The constructor (and merge_overlapping_intervals) are checked separately from ARBITRARY raw
 values (ints and pairs; overlapping, nested, adjacent, reversed, duplicated), equality is checked
 both on canonical states and on sets built by the constructor from two arbitrary raw lists
-("equal sets compare equal"), iteration is checked with a symbolic base and a bounded number of
-elements.  The number of ranges (shape) is enumerated; every end point is symbolic.
+("equal sets compare equal"), iteration is checked with ranges at symbolic positions holding a
+bounded number of elements each.  The number of ranges (shape) is enumerated; every end point is
+symbolic.  Shapes with >= 4 ranges in total are cut into cells (position of b's least / greatest
+element relative to a's ranges) that run in separate processes; a harness proves the cells cover
+the input space.  Obligations are interval reasoning, so the prover first decides them in the
+exact linear-integer translation (symx/solve.py) before falling back to bit-blasting.
 """
 import os
 from symx.harness import Harness
@@ -61,7 +65,8 @@ OUTSIDE = ["more ranges per operand than the listed shapes (the loops are unifor
            "arguments that are neither int nor pair (TypeError path of the constructor)"]
 ASSUMPTIONS = ["operand states are canonical (sorted, non-empty, non-overlapping, non-adjacent ranges) - the representation invariant that every constructor/operation result is separately proved to establish",
                "denotation, cardinality by inclusion-exclusion and set equality via critical points are defined in /verif/ref/intset.py",
-               "iteration: range(a, b) over symbolic bounds yields a, a+1, ... while < b (shim used only by the iteration harness)"]
+               "iteration: range(a, b) over symbolic bounds yields a, a+1, ... while < b (shim used only by the iteration harness)",
+               "min/max of symbolic integers are evaluated as the if-then-else of a comparison (no fork)"]
 SHIMS_USED = ["isinstance", "int", "range", "bool"]
 JOB_TIMEOUT = {"quick": 900, "thorough": 3000}
 CARD_ORACLE_MAX = 4     # total number of operand ranges up to which |result| is ALSO compared with the
